@@ -205,8 +205,10 @@ var Templates = []*Template{
 	},
 	{
 		// one metavariable, used twice: both uses must be the same expression
-		Name:    "same-arg-twice",
-		Patch:   func(k int) string { return fmt.Sprintf("@@\nvar x expression\n@@\n-vfOld%d(x, x)\n+vfNew%d(x)\n", k, k) },
+		Name: "same-arg-twice",
+		Patch: func(k int) string {
+			return fmt.Sprintf("@@\nvar x expression\n@@\n-vfOld%d(x, x)\n+vfNew%d(x)\n", k, k)
+		},
 		Trigger: func(k int) string { return fmt.Sprintf("vfOld%d", k) },
 		Stmt: func(r *world.PRNG, k int) string {
 			e := GenExpr(r, 1)
